@@ -94,6 +94,14 @@ impl ops::Mul<Decimal> for Uint128 { type Output = Uint128;
         ensures (self.0 as nat) * (rhs.0 as nat) / dd() < p128(), r.0 as nat == (self.0 as nat) * (rhs.0 as nat) / dd()
 //%endif
     { unimplemented!() } }
+// closure-contract helpers for `Uint128 * Decimal` (same condition as the operator contract above)
+//%if A
+pub open spec fn mul_req_ud(u: Uint128, d: Decimal) -> bool { (u.0 as nat) * (d.0 as nat) / dd() < p128() }
+pub open spec fn mul_ens_ud(u: Uint128, d: Decimal, r: Uint128) -> bool { r.0 as nat == (u.0 as nat) * (d.0 as nat) / dd() }
+//%else
+pub open spec fn mul_req_ud(u: Uint128, d: Decimal) -> bool { true }
+pub open spec fn mul_ens_ud(u: Uint128, d: Decimal, r: Uint128) -> bool { (u.0 as nat) * (d.0 as nat) / dd() < p128() && r.0 as nat == (u.0 as nat) * (d.0 as nat) / dd() }
+//%endif
 impl MulSpecImpl<Decimal> for Uint128 {
     open spec fn obeys_mul_spec() -> bool { false }
 //%if A
@@ -147,13 +155,14 @@ impl FromSpecImpl<Vec<u8>> for CanonicalAddr {
 }
 // Api: address (de)canonicalisation is an uninterpreted partial bijection
 pub uninterp spec fn canon_of(human: Seq<char>) -> Seq<u8>;
+pub uninterp spec fn human_of(canonical: Seq<u8>) -> Seq<char>;
 pub trait Api {
     fn addr_validate(&self, human: &str) -> (r: StdResult<Addr>)
         ensures r is Ok ==> r->Ok_0.0@ == human@;
     fn addr_canonicalize(&self, human: &str) -> (r: StdResult<CanonicalAddr>)
         ensures r is Ok ==> r->Ok_0.0@ == canon_of(human@);
     fn addr_humanize(&self, canonical: &CanonicalAddr) -> (r: StdResult<Addr>)
-        ensures r is Ok ==> canon_of(r->Ok_0.0@) == canonical.0@;
+        ensures r is Ok ==> r->Ok_0.0@ == human_of(canonical.0@) && canon_of(r->Ok_0.0@) == canonical.0@;
 }
 
 // ---- coins, message info, env ----
@@ -167,7 +176,9 @@ pub struct Env { pub contract: ContractInfo }
 pub struct Binary { pub dummy: u8 }
 pub uninterp spec fn bin_of<T>(t: T) -> Binary;
 #[verifier::external_body] pub fn to_binary<T>(t: &T) -> (r: StdResult<Binary>) ensures r is Ok ==> r->Ok_0 == bin_of::<T>(*t) { unimplemented!() }
-#[verifier::external_body] pub fn from_binary<T>(b: &Binary) -> (r: StdResult<T>) { unimplemented!() }
+// deserialisation is a deterministic (uninterpreted) function of the bytes
+pub uninterp spec fn decode<T>(b: Binary) -> StdResult<T>;
+#[verifier::external_body] pub fn from_binary<T>(b: &Binary) -> (r: StdResult<T>) ensures r == decode::<T>(*b) { unimplemented!() }
 
 // ---- messages ----
 pub enum BankMsg { Send { to_address: String, amount: Vec<Coin> } }
@@ -192,20 +203,20 @@ pub struct Response { pub messages: Vec<SubMsg> }
 pub open spec fn plain_msgs(s: Seq<SubMsg>) -> Seq<CosmosMsg> { s.map_values(|m: SubMsg| m.msg) }
 impl Response {
     pub open spec fn msgs(&self) -> Seq<CosmosMsg> { plain_msgs(self.messages@) }
-    #[verifier::external_body] pub fn new() -> (r: Response) ensures r.messages@ == Seq::<SubMsg>::empty() { unimplemented!() }
-    #[verifier::external_body] pub fn default() -> (r: Response) ensures r.messages@ == Seq::<SubMsg>::empty() { unimplemented!() }
+    #[verifier::external_body] pub fn new() -> (r: Response) ensures r.messages@ == Seq::<SubMsg>::empty(), r.msgs() == Seq::<CosmosMsg>::empty() { unimplemented!() }
+    #[verifier::external_body] pub fn default() -> (r: Response) ensures r.messages@ == Seq::<SubMsg>::empty(), r.msgs() == Seq::<CosmosMsg>::empty() { unimplemented!() }
     #[verifier::external_body] pub fn add_message(self, m: CosmosMsg) -> (r: Response)
         ensures r.messages@.len() == self.messages@.len() + 1, r.msgs() == self.msgs().push(m),
             forall|i: int| 0 <= i < self.messages@.len() ==> r.messages@[i] == self.messages@[i],
             r.messages@[self.messages@.len() as int].reply_on == ReplyOn::Never { unimplemented!() }
     #[verifier::external_body] pub fn add_messages(self, ms: Vec<CosmosMsg>) -> (r: Response)
-        ensures r.messages@.len() == self.messages@.len() + ms@.len(), r.msgs() == self.msgs() + ms@,
+        ensures r.messages@.len() == self.messages@.len() + ms@.len(), r.msgs() == self.msgs() + ms@, self.msgs().len() == 0 ==> r.msgs() == ms@,
             forall|i: int| 0 <= i < self.messages@.len() ==> r.messages@[i] == self.messages@[i],
             forall|i: int| self.messages@.len() <= i < r.messages@.len() ==> r.messages@[i].reply_on == ReplyOn::Never { unimplemented!() }
     #[verifier::external_body] pub fn add_submessage(self, m: SubMsg) -> (r: Response)
         ensures r.messages@ == self.messages@.push(m), r.msgs() == self.msgs().push(m.msg) { unimplemented!() }
     // R2: `.add_attribute(..)` / `.add_attributes(..)` calls are rewritten to this no-op on the message list
-    #[verifier::external_body] pub fn add_attributes_opaque(self) -> (r: Response) ensures r.messages@ == self.messages@ { unimplemented!() }
+    #[verifier::external_body] pub fn add_attributes_opaque(self) -> (r: Response) ensures r.messages@ == self.messages@, r.msgs() == self.msgs() { unimplemented!() }
 }
 pub proof fn lemma_plain_msgs_empty() ensures plain_msgs(Seq::<SubMsg>::empty()) == Seq::<CosmosMsg>::empty() {
     assert(plain_msgs(Seq::<SubMsg>::empty()) =~= Seq::<CosmosMsg>::empty());
@@ -245,3 +256,35 @@ impl QuerierWrapper { pub open spec fn world(&self) -> World { self.w@ } }
 #[verifier::external_body] pub fn query_token_info(querier: &QuerierWrapper, contract_addr: Addr) -> (r: StdResult<TokenInfoResponse>)
     ensures r is Ok ==> r->Ok_0.total_supply.0 as nat == querier.world().tok_supply(contract_addr.0@)
         && querier.world().tok_decimals.dom().contains(contract_addr.0@) && r->Ok_0.decimals == querier.world().tok_decimals[contract_addr.0@] { unimplemented!() }
+
+// ---- std / small dependencies used by the pair ----
+impl Eq for Uint128 {}
+impl Ord for Uint128 { #[verifier::external_body] fn cmp(&self, o: &Uint128) -> (r: Ordering) { unimplemented!() } }
+impl OrdSpecImpl for Uint128 {
+    open spec fn obeys_cmp_spec() -> bool { true }
+    open spec fn cmp_spec(&self, o: &Uint128) -> Ordering {
+        if self.0 < o.0 { Ordering::Less } else if self.0 == o.0 { Ordering::Equal } else { Ordering::Greater }
+    }
+}
+// std::cmp::min(a, b): b only when b < a
+pub assume_specification<T: Ord>[ core::cmp::min ](a: T, b: T) -> (r: T)
+    ensures T::obeys_cmp_spec() ==> r == (if b.cmp_spec(&a) == Ordering::Less { b } else { a });
+// u64::pow: aborts on overflow (overflow-checks = true)
+pub assume_specification[ u64::pow ](b: u64, e: u32) -> (r: u64)
+//%if A
+    requires vstd::arithmetic::power::pow(b as int, e as nat) <= u64::MAX
+    ensures r as int == vstd::arithmetic::power::pow(b as int, e as nat);
+//%else
+    ensures vstd::arithmetic::power::pow(b as int, e as nat) <= u64::MAX, r as int == vstd::arithmetic::power::pow(b as int, e as nat);
+//%endif
+// u128 multiplication with overflow-checks = true (declared rewrite of `a * b` on primitives)
+//%if A
+pub fn rt_mul_u128(a: u128, b: u128) -> (r: u128) requires a * b <= u128::MAX ensures r == a * b { a * b }
+//%else
+#[verifier::external_body] pub fn rt_mul_u128(a: u128, b: u128) -> (r: u128) ensures a * b <= u128::MAX, r == a * b { unimplemented!() }
+//%endif
+// integer-sqrt 0.1.5: floor square root
+pub trait IntegerSquareRoot: Sized { fn integer_sqrt(&self) -> Self; }
+impl IntegerSquareRoot for u128 {
+    #[verifier::external_body] fn integer_sqrt(&self) -> (r: u128) ensures (r as nat) * (r as nat) <= *self as nat, (*self as nat) < (r as nat + 1) * (r as nat + 1) { unimplemented!() }
+}
